@@ -119,12 +119,19 @@ func vfc11GenValues(rng *rand.Rand, k int) ([]string, string) {
 }
 
 // vfc11BuildIndex writes <root>/bkt/<id>/index from generated series.
-func vfc11BuildIndex(ctx context.Context, rng *rand.Rand, root string, c int, maxSeries, maxValues int) (*vfc11Index, error) {
+//
+// wide: every series carries every name and every name cycles through a universe of maxValues values, so
+// that the symbol table is larger than BinaryReader's value-symbol cache (1024 slots).
+func vfc11BuildIndex(ctx context.Context, rng *rand.Rand, root string, c int, maxSeries, maxValues int, wide bool) (*vfc11Index, error) {
 	nSeries := 1 + rng.Intn(maxSeries)
 	if rng.Intn(5) == 0 {
 		nSeries = 1 + rng.Intn(6)
 	}
 	nNames := 1 + rng.Intn(6)
+	if wide {
+		nSeries = maxSeries
+		nNames = 3 + rng.Intn(3)
+	}
 	nameSeen := map[string]struct{}{}
 	var names []string
 	for len(names) < nNames {
@@ -157,6 +164,9 @@ func vfc11BuildIndex(ctx context.Context, rng *rand.Rand, root string, c int, ma
 				k = maxValues
 			}
 		}
+		if wide {
+			k = maxValues
+		}
 		var st string
 		universe[j], st = vfc11GenValues(rng, k)
 		styles = append(styles, fmt.Sprintf("%s/%d", st, k))
@@ -168,8 +178,8 @@ func vfc11BuildIndex(ctx context.Context, rng *rand.Rand, root string, c int, ma
 		for j, n := range names {
 			// the first name is present in every series and cycles through its universe so that
 			// large value counts are really reached; the others are present with probability 1/2
-			if j == 0 {
-				kv = append(kv, n, universe[j][i%len(universe[j])])
+			if j == 0 || wide {
+				kv = append(kv, n, universe[j][(i+j)%len(universe[j])])
 			} else if rng.Intn(2) == 0 {
 				if rng.Intn(3) == 0 {
 					kv = append(kv, n, universe[j][i%len(universe[j])])
@@ -189,7 +199,7 @@ func vfc11BuildIndex(ctx context.Context, rng *rand.Rand, root string, c int, ma
 	sort.Slice(sets, func(i, j int) bool { return labels.Compare(sets[i], sets[j]) < 0 })
 
 	ix := &vfc11Index{id: vfc11ULID(rng, c), bktDir: filepath.Join(root, "bkt"), values: map[string][]string{}, series: len(sets)}
-	ix.class = fmt.Sprintf("series=%d names=%d values=%s", len(sets), nNames, strings.Join(styles, ","))
+	ix.class = fmt.Sprintf("series=%d names=%d values=%s wide=%v", len(sets), nNames, strings.Join(styles, ","), wide)
 	symSet := map[string]struct{}{}
 	valSet := map[string]map[string]struct{}{}
 	for _, ls := range sets {
@@ -756,13 +766,13 @@ func vfc11Describe(ix *vfc11Index) string {
 func TestVF_C11(t *testing.T) {
 	r := vfkit.Start(t, "C11")
 	defer r.Finish()
-	r.Rule("case = one TSDB index written by Prometheus' index.Writer from 1..300 generated series (1..6 names, 1..200 values per name in 6 styles: prefix trees, numbers, " +
+	r.Rule("case = one TSDB index written by Prometheus' index.Writer from 1..300 generated series (1..6 names, 1..200 values per name; every 15th index wide: 700 series x 3..5 names x 700 values, > 1024 symbols; values in 6 styles: prefix trees, numbers, " +
 		"adversarial alphabet, near-empty strings, long common prefixes) plus the repository's v1 fixture index; per index every sampling rate of the tier, file- and memory-backed BinaryReader alternating; " +
 		"oracle = Prometheus index.NewFileReader (LabelNames, SortedLabelValues, Symbols, PostingsRanges): names, values of every name, every symbol, PostingsOffset of every present value and of absent values, " +
 		"and PostingsOffsets of generated sorted lists (present/absent-before/between/after, duplicates, runs over several sampled groups) must agree, missing values = {-1,-1}/NotFoundRangeErr; " +
 		"exact ranges except the End of the last offset-table entry (>= true end, <= index size); distinct/non-trivial = (index, rate, name, list) with >=2 values of which >=1 present")
-	nIdx := r.N(60, 600)
-	nLists := r.N(200, 500)
+	nIdx := r.N(60, 200)
+	nLists := r.N(200, 100)
 	rates := []int{1, 2, 3, 5, 32, 64}
 	if r.Thorough() {
 		rates = rates[:0]
@@ -793,7 +803,12 @@ func TestVF_C11(t *testing.T) {
 			}
 		} else {
 			var err error
-			ix, err = vfc11BuildIndex(ctx, rng, filepath.Join(root, fmt.Sprintf("c%d", c)), c, 300, 200)
+			// every 15th index is "wide": > 1024 symbols (deviation from the 300-series/200-values bound)
+			if c%15 == 7 {
+				ix, err = vfc11BuildIndex(ctx, rng, filepath.Join(root, fmt.Sprintf("c%d", c)), c, 700, 700, true)
+			} else {
+				ix, err = vfc11BuildIndex(ctx, rng, filepath.Join(root, fmt.Sprintf("c%d", c)), c, 300, 200, false)
+			}
 			if err != nil {
 				r.Inconclusive(fmt.Sprintf("case %d: cannot write the index: %v", c, err))
 				continue
@@ -820,6 +835,9 @@ func TestVF_C11(t *testing.T) {
 		r.Count(fmt.Sprintf("indexes_v%d", o.version), 1)
 		if maxVals >= 65 {
 			r.Count("indexes_with_a_name_of_65+_values", 1)
+		}
+		if len(o.symbols) > valueSymbolsCacheSize {
+			r.Count("indexes_with_more_symbols_than_cache_slots", 1)
 		}
 		hdrDir := filepath.Join(root, fmt.Sprintf("hdr%d", c))
 		for ri, rate := range rates {
